@@ -43,6 +43,8 @@ def run(chk):
     r2_case_split(chk, repo)
     r3_reductions(chk, repo)
     r4_constructors(chk, repo)
+    r5_running_max(chk, repo)
+    r6_split_protocol(chk, repo)
 
 
 def _mentions_len_of_element(f, text):
@@ -295,7 +297,7 @@ def r3_reductions(chk, repo):
             ok, why = check_reduction(f, call)
             chk.check(ok, "C07.R3", f, stmt_of(call), f"`{norm(call)[:80]}` can be applied to an empty array ({why}): valid input makes the rechunker raise ValueError",
                       site_text=f"{q}: `{norm(call)[:60]}` protected", site={"function": q, "construct": norm(call)[:120]})
-    chk.floor("C07.R3", "identity-less reductions in scope", n, 2)
+    chk.floor("C07.R3", "identity-less reductions in scope", n, 1)
 
 
 # ------------------------------------------------------------------------------------ R4
@@ -320,8 +322,82 @@ def r4_constructors(chk, repo):
     GI, gi_assign, _b = local_defined_as(gs.node, "np.argwhere(strax.diff(data) > min_gap).flatten() + 1")
     chk.check(GI is not None, "C07.R4", gs, None, "split candidates are not the positions after gaps larger than the minimum gap", site_text="get_splits: candidates = argwhere(diff(data) > min_gap) + 1")
 
+# ------------------------------------------------------------------------------------ R5
+def r5_running_max(chk, repo, rule="C07.R5"):
+    from ..rules import endtime_accumulators
+    chk.describe(rule, "sweeps over time-sorted rows compare against the running maximum of the end times seen so far (rows are sorted by start, not by end: a long early row can outlast later ones)")
+    n = 0
+    for q, p in (("split_array", CHUNK), ("diff", "strax/processing/general.py")):
+        f = repo.func(q, p)
+        acc = endtime_accumulators(f)
+        chk.check(bool(acc), rule, f, None, f"{q} no longer keeps a loop-carried latest-end value (anchor moved?)", site_text=f"{q}: keeps a latest-end accumulator")
+        for L, st, ok in acc:
+            n += 1
+            chk.check(ok, rule, f, st, f"`{L}` is overwritten with the end of the current row instead of accumulated with max(): with nested rows a cut (or gap) is found inside a long earlier row",
+                      site_text=f"{q}: {L} = max({L}, end of row)", site={"function": q, "accumulator": "latest end"})
+    chk.floor(rule, "latest-end accumulators", n, 2)
+
+
+# ------------------------------------------------------------------------------------ R6
+def r6_split_protocol(chk, repo):
+    chk.describe("C07.R6", "Chunk.split fixes the (possibly earlier) split time before anything else uses it, and builds two adjacent chunks: left = [start, t) with the left rows, right = [t, end) with the right rows")
+    R = "C07.R6"
+    f = repo.func("Chunk.split", CHUNK)
+    cfg = cfg_of(f)
+    T = f.params[1]
+    sa = [st for st in walk_body(f.node) if isinstance(st, ast.Assign) and isinstance(st.value, ast.Call) and (call_name(st.value) or "").split(".")[-1] == "split_array"]
+    chk.need(len(sa) == 1 and isinstance(sa[0].targets[0], ast.Tuple) and len(sa[0].targets[0].elts) == 3, "C07.R6: Chunk.split no longer unpacks (left, right, t) from split_array")
+    d1, d2, t3 = [norm(e) for e in sa[0].targets[0].elts]
+    chk.check(t3 == T, R, f, sa[0], "the split time returned by split_array (which may be earlier than requested) is not taken over", site_text="Chunk.split: t rebound from split_array")
+    D = cfg.node_of(sa[0])
+    before = cfg.reaching([D], "n")  # nodes from which the rebinding can still happen
+    for n in cfg.nodes:
+        if n is D or n not in before:
+            continue
+        e = n.stmt if n.kind == "stmt" else None
+        if e is None:
+            continue
+        if isinstance(e, (ast.If, ast.While)):
+            reads = [x for x in ast.walk(e.test) if isinstance(x, ast.Name) and x.id == T]
+            allowed = True  # branch tests that decide whether a search is needed at all
+            what = norm(e.test)
+        elif isinstance(e, (ast.For, ast.With, ast.Try, ast.FunctionDef)):
+            continue
+        else:
+            reads = [x for x in ast.walk(e) if isinstance(x, ast.Name) and x.id == T and isinstance(x.ctx, ast.Load)]
+            # the clamp `t = max(min(t, end), start)` rebinds t itself
+            allowed = isinstance(e, ast.Assign) and len(e.targets) == 1 and norm(e.targets[0]) == T
+            what = head(e, 100)
+        if reads and not allowed:
+            chk.fail(R, f, e, f"`{what}` uses the requested split time before split_array has fixed the actual one: with an early split the annotation / bounds refer to a different time than the data cut",
+                     site={"function": f.qualname, "rule": "no use of t before it is final", "construct": what})
+        elif reads:
+            chk.ok(R, f"Chunk.split: `{what[:60]}` may read the requested time")
+    cons = [c for c in calls_in(f.node) if (call_name(c) or "") in ("strax.Chunk", "Chunk", "cls", "self.__class__")]
+    cons.sort(key=lambda c: c.lineno)
+    chk.check(len(cons) == 2, R, f, None, "Chunk.split does not build exactly two chunks", site_text="Chunk.split: two result chunks")
+    if len(cons) == 2:
+        k1 = {k.arg: norm(k.value) for k in cons[0].keywords if k.arg}
+        k2 = {k.arg: norm(k.value) for k in cons[1].keywords if k.arg}
+        chk.check(k1.get("start") == "self.start" and k1.get("data") == d1, R, f, stmt_of(cons[0]), "left chunk does not start at the chunk start with the left rows", site_text="Chunk.split: left = (self.start, ..., left rows)")
+        chk.check(k1.get("end") is not None and k1.get("end") == k2.get("start") and T in atoms(cons[0].keywords[[k.arg for k in cons[0].keywords].index("end")].value), R, f, stmt_of(cons[1]), "the two halves are not adjacent at the split time (left end != right start)", site_text="Chunk.split: left.end == right.start == f(t)")
+        chk.check(k2.get("data") == d2 and "self.end" in (k2.get("end") or ""), R, f, stmt_of(cons[1]), "right chunk does not end at the chunk end with the right rows", site_text="Chunk.split: right = (..., self.end, right rows)")
+    ret = [st for st in walk_body(f.node) if isinstance(st, ast.Return)]
+    names = [norm(stmt_of(c).targets[0]) for c in cons if isinstance(stmt_of(c), ast.Assign)]
+    chk.check(len(ret) == 1 and len(names) == 2 and norm(ret[0].value) == f"({names[0]}, {names[1]})", R, f, ret[0] if ret else None, "Chunk.split does not return (left, right)", site_text="Chunk.split: return (left, right)")
+
 
 WITNESSES = [
+    W("split_array forgets long earlier rows", "C07.R5", CHUNK,
+      "latest_end_seen = max(latest_end_seen, strax.endtime(d))", "latest_end_seen = strax.endtime(d)"),
+    W("run bookkeeping before the split time is final", "C07.R6", CHUNK,
+      "t = max(min(t, self.end), self.start)  # type: ignore\n        if t == self.end:", "t = max(min(t, self.end), self.start)  # type: ignore\n        superrun_first_chunk, superrun_second_chunk = _split_runs_in_chunk(self.superrun, t)\n        if t == self.end:"),
+    W("halves swapped", "C07.R6", CHUNK,
+      "end=max(self.start, t),  # type: ignore\n            data=data1,", "end=max(self.start, t),  # type: ignore\n            data=data2,"),
+    W("right half starts at the requested end", "C07.R6", CHUNK,
+      "start=max(self.start, t),  # type: ignore\n            end=max(t, self.end),", "start=max(self.start, t + 1),  # type: ignore\n            end=max(t, self.end),"),
+    W("early split time discarded", "C07.R6", CHUNK,
+      "data1, data2, t = split_array(data=self.data, t=t, allow_early_split=allow_early_split)", "data1, data2, _t = split_array(data=self.data, t=t, allow_early_split=allow_early_split)"),
     W("merge without the row-count guard", "C07.R1", CHUNK,
       "if len(set([len(c) for c in chunks])) != 1:\n            raise ValueError(f\"Cannot merge chunks with different number of items: {chunks}\")", "pass"),
     W("merge without the time-range guard", "C07.R1", CHUNK,
